@@ -44,6 +44,11 @@ class Horizon(BaseException):
     """Virtual clock passed the horizon with the main coroutine still blocked."""
 
 
+class SyncHang(KeyboardInterrupt):
+    """Wall-clock watchdog: code under test ran synchronously (never yielding to the loop) for longer than the per-run limit.
+    (A KeyboardInterrupt subclass because asyncio lets only those pass through tasks and handles.)"""
+
+
 def _fr(x):
     if isinstance(x, fractions.Fraction):
         return x
